@@ -92,7 +92,12 @@ static std::string err_truth(const Facts &f, int m, int t, int mask, const v_out
         if (n == "LPART_INVALID_UTF8") return m == 3 && !ref::utf8_ok(L) ? "" : "the local part is well-formed UTF-8 (or not mode 6531)";
         return "";
     }
-    if (n == "DOMAIN_EMPTY") return (!f.has_at || f.D.empty()) ? "" : "the domain is not empty";
+    if (n == "DOMAIN_EMPTY") {
+        if (!f.has_at || f.D.empty()) return "";
+        // mode 6531 judges the A-label form: a domain made only of characters IDNA maps to nothing (U+00AD, U+200B ...) IS empty after the mapping
+        if (m == 3 && !f.bracket && f.conv_ok && f.aform.empty()) return "";
+        return "the domain is not empty";
+    }
     if (!f.has_at || f.D.empty()) return "a domain-side error although the address has no domain part";
     if (L.size() <= 64 && !L.empty() && !f.lref[m]) return "a domain-side error although the local part is invalid for the mode (the local part is judged first)";
     if (n.rfind("IPADDR_", 0) == 0) {
@@ -259,7 +264,7 @@ static void stage_targets(Run &R) {
     std::vector<Bytes> seeds = corpus_lines(R.a.datadir);
     for (const char *x : {"", "@b.com", "a@", "a", "\x80@b.com", "a b@c.com", "a\x01@c.com", "a\"b@c.com", "\"a@c.com", "a..b@c.com", ".a@c.com", "a.@c.com",
                           "\"a b c\"@d.com", "\"a\rb\"@d.com", "\xD0@d.com", "a@" , "a@-b.com", "a@b-.com", "a@b..com", "a@.b.com", "a@b_c.com", "a@1.2", "a@b", "a@b.zzunlisted", "a@[1.2.3]", "a@[1.2.3.4",
-                          "a@x.abarth", "a@x.ru", "a@x.com", "a@x.name", "a@x.arpa", "a@x.aero", "a@example.com", "a@\xE2\x99\xA5.com", "a@\xD0\xBF.\xD1\x80\xD1\x84", "a@b.c.", "a@b.com.", "a@localhost.", "a@com.", "a@1_2.3_4", "a@192_168.0_1", "a@_", "a@a_b.com", "a@_a.com", "a@a_.c_m", "a@1_2"})
+                          "a@x.abarth", "a@x.ru", "a@x.com", "a@x.name", "a@x.arpa", "a@x.aero", "a@example.com", "a@\xE2\x99\xA5.com", "a@\xD0\xBF.\xD1\x80\xD1\x84", "a@b.c.", "a@b.com.", "a@localhost.", "a@com.", "a@1_2.3_4", "a@192_168.0_1", "a@_", "a@a_b.com", "a@_a.com", "a@a_.c_m", "a@1_2", "+x@\xC2\xAD", "a@\xE2\x80\x8B", "a@\xC2\xAD.com", "a@b.\xC2\xAD", "a@\xC2\xAD\xC2\xAD"})
         seeds.push_back(x);
     seeds.push_back(Bytes("a@") + Bytes(64, 'l') + ".com"); seeds.push_back(Bytes("a@") + Bytes(63, 'l') + "." + Bytes(63, 'm') + "." + Bytes(63, 'n') + "." + Bytes(63, 'o') + ".com");
     seeds.push_back(Bytes(65, 'a') + "@b.com");
